@@ -76,8 +76,7 @@ def export(node):
                 [[name, export(x)] for (name, x) in ast.iter_fields(node)]]
     if isinstance(node, list):
         return ["l", [export(x) for x in node]]
-    # since fix b1d74a8 (findings F17 / F32) the dumped value has the `=` of `_pos=` escaped
-    return ["s", repr(node).replace("_pos=", "_pos\\="), scalar_kind(node)]
+    return ["s", repr(node), scalar_kind(node)]  # raw repr: the escaping of `_pos=` (fix b1d74a8) is in the Lean model
 
 
 def flat_lines(text):
@@ -180,8 +179,14 @@ class Gen:
             return self.r.choice(["True", "False", "None", "..."])
         return "-" + self.r.choice(NUM_LITS[:9] + ["True", "'a'", "x", "-1", "b\"it's\""])
 
+    def wide(self):
+        """Occasionally a list with 10-13 children: multi-digit child numbers in the paths."""
+        return self.r.random() < 0.06
+
     def exprs(self, d, lo=0, hi=None):
         hi = self.width if hi is None else hi
+        if self.wide():
+            return [self.expr(0) for _ in range(self.r.randint(10, 13))]
         return [self.expr(d) for _ in range(self.r.randint(lo, hi))]
 
     def target(self, d):
@@ -357,6 +362,10 @@ class Gen:
     def block(self, d, ind, lo=1, hi=None):
         hi = self.width if hi is None else hi
         out = []
+        if self.wide():
+            for j in range(self.r.randint(10, 12)):
+                out += self.stmt(0, ind)
+            return out
         for _ in range(self.r.randint(lo, hi)):
             out += self.stmt(d, ind)
         return out
@@ -376,6 +385,8 @@ class Gen:
         if k == 1:
             return [I + f"{self.target(1)} = {e()}"]
         if k == 2:
+            if self.wide():
+                return [I + " = ".join(f"t{j}" for j in range(r.randint(10, 12))) + f" = {e()}"]
             return [I + f"{self.ident()} = {self.ident()} = {e()}"]
         if k == 3:
             op = r.choice(["+", "-", "*", "/", "//", "%", "**", "<<", ">>", "|", "^", "&", "@"])
@@ -393,10 +404,20 @@ class Gen:
         if k == 9:
             return [I + r.choice([f"assert {e()}", f"assert {e()}, {self.string()}"])]
         if k == 10:
+            if r.random() < 0.3:  # 10-25 names: child numbers with two digits
+                names = ", ".join(f"m{j}" + (f" as n{j}" if r.random() < 0.3 else "") for j in range(r.randint(10, 25)))
+                return [I + f"import {names}"]
             names = ", ".join(r.choice(["os", "os.path", "sys as s", "a.b.c as d", "kind", "alias as _pos"]) for _ in range(r.randint(1, 3)))
             return [I + f"import {names}"]
         if k == 11:
             mod = r.choice(["os", ".", "..pkg", ".m", "a.b"])
+            if r.random() < 0.3:  # a long parenthesised list over several lines
+                k = r.randint(10, 25)
+                items = [f"n{j}" + (f" as p{j}" if r.random() < 0.3 else "") for j in range(k)]
+                out = [I + f"from {mod} import ("]
+                for j in range(0, k, 4):
+                    out.append(I + "    " + ", ".join(items[j:j + 4]) + ",")
+                return out + [I + ")"]
             names = r.choice(["*", "a", "a as b, c", "(a, b as kind)"]) if ind == 0 else r.choice(["a", "a as b, c"])
             return [I + f"from {mod} import {names}"]
         if k == 12:
@@ -428,7 +449,7 @@ class Gen:
             return out
         if k in (21, 22, 23):
             out = []
-            for _ in range(r.randint(0, 2)):
+            for _ in range(r.randint(10, 11) if self.wide() else r.randint(0, 2)):
                 out.append(I + "@" + e(True))
             a = "async " if r.random() < 0.25 else ""
             ret = f" -> {self.expr(0)}" if r.random() < 0.3 else ""
@@ -440,7 +461,7 @@ class Gen:
             out = []
             for _ in range(r.randint(0, 2)):
                 out.append(I + "@" + e(True))
-            bases = self.exprs(0, 0, 2)
+            bases = self.exprs(0, 0, 2)  # (10-13 bases when `wide`)
             if r.random() < 0.3:
                 bases.append(f"metaclass={self.ident()}")
             out.append(I + f"class {self.ident()}{self.type_params()}" + (f"({', '.join(bases)})" if bases or r.random() < 0.3 else "") + ":")
@@ -452,10 +473,10 @@ class Gen:
         if k in (26, 27):
             star = "*" if r.random() < 0.2 else ""
             out = [I + "try:"] + self.block(d, ind + 1, 1, 2)
-            nh = r.randint(0, 2)
+            nh = r.randint(10, 11) if (self.wide() and not star) else r.randint(0, 2)
             for _ in range(nh):
                 h = r.choice([f"except{star} {e(True)}", f"except{star} {e(True)} as {self.ident()}", f"except{star} (A, B)"])
-                if not star and r.random() < 0.15:
+                if not star and nh < 10 and r.random() < 0.15:
                     h = "except"
                 out += [I + h + ":"] + self.block(d, ind + 1, 1, 2)
                 if h == "except":
